@@ -146,6 +146,8 @@ def py_in(I, x, coll):
         return I.ctx.fresh(S.BOOL, "member")
     if isinstance(coll, MDict):
         return mdict_contains(I, coll, x)
+    if isinstance(coll, set) and sym_members(coll):
+        return S.or_(*[py_eq(I, x, y) for y in list(coll) + sym_members(coll)])
     if isinstance(coll, (dict, set, frozenset)) and not is_sym(x):
         try:
             return x in coll
@@ -952,10 +954,29 @@ def lookup_class(cls):
     return None
 
 
+SYM_MEMBERS: dict = {}     # id(set object) -> (the set, [symbolic members added on this path])
+
+
+def sym_members(s):
+    ent = SYM_MEMBERS.get(id(s))
+    return ent[1] if ent is not None and ent[0] is s else []
+
+
 def lookup_method(f):
     """model for a native bound method called with symbolic arguments"""
     selfobj = getattr(f, "__self__", None)
     name = getattr(f, "__name__", "")
+    if isinstance(selfobj, set) and name == "add":
+        def run_add(I, obj, x):
+            I.ctx.log_write(obj, "set.add")
+            if is_sym(x):
+                ent = SYM_MEMBERS.get(id(obj))
+                if ent is None or ent[0] is not obj:
+                    SYM_MEMBERS[id(obj)] = (obj, [])
+                SYM_MEMBERS[id(obj)][1].append(x)
+                return None
+            return obj.add(x)
+        return run_add
     if isinstance(selfobj, list) and name in ("append", "extend", "insert", "__iadd__", "pop", "clear", "copy"):
         def run(I, obj, *a):
             if any(is_sym(x) for x in a) and name in ("pop", "insert"):
